@@ -89,6 +89,7 @@ struct MemTx {
 	valid: bool,
 	fee: i64,
 	weight: u64,
+	sweep: bool,
 }
 
 struct Pending {
@@ -137,6 +138,7 @@ struct Net {
 	swept: [u64; 2],
 	refused: [bool; 2],
 	jump_from: Option<u32>,
+	mined: Vec<MemTx>,
 }
 
 impl Net {
@@ -506,9 +508,10 @@ impl Net {
 			let w = ws.as_ref().map(|s| &o.script_pubkey == s).unwrap_or(false);
 			json!({"amt": o.value.to_sat(), "wal": w})
 		}).collect();
-		self.ev(json!({"ev":"bcast","by":by,"tx":id,"dup":false,"h":h,"kind":kind,"ins":ins,"wal":wal,"outs":outs,
+		let repl: Vec<usize> = self.mempool.iter().filter(|m| m.tx.input.iter().any(|i| tx.input.iter().any(|j| j.previous_output == i.previous_output))).map(|m| m.id).collect();
+		self.ev(json!({"ev":"bcast","by":by,"tx":id,"dup":false,"h":h,"kind":kind,"ins":ins,"wal":wal,"outs":outs,"repl":repl,
 			"fee":fee,"weight":weight,"feerate":feerate,"pfeerate":pfeerate,"locktime":tx.lock_time.to_consensus_u32(),"valid":valid,"final":fin,"sweep":false}));
-		self.mempool.push(MemTx { tx, txid, id, by, valid, fee, weight });
+		self.mempool.push(MemTx { tx, txid, id, by, valid, fee, weight, sweep: false });
 	}
 
 	/// Everything node `i` did since the last call: broadcasts, monitor events (bump events are
@@ -649,7 +652,7 @@ impl Net {
 					let ins: Vec<Value> = tx.input.iter().map(|i| self.opj(&i.previous_output)).collect();
 					self.ev(json!({"ev":"sweep","node":node,"h":h,"tx":id,"op":opj,"ok":true,"ins":ins,"out_amt":outval,"fee":inval as i64 - outval as i64,"valid":valid,"final":fin}));
 					let weight = tx.weight().to_wu();
-					self.mempool.push(MemTx { tx, txid, id, by: node, valid, fee: inval as i64 - outval as i64, weight });
+					self.mempool.push(MemTx { tx, txid, id, by: node, valid, fee: inval as i64 - outval as i64, weight, sweep: true });
 				},
 				_ => {
 					self.ev(json!({"ev":"sweep","node":node,"h":h,"tx":0,"op":opj,"ok":false,"ins":[],"out_amt":0,"fee":0,"valid":false,"final":false}));
@@ -852,7 +855,10 @@ impl Net {
 			for i in tx.input.iter() { self.spent.insert(i.previous_output, txid); }
 			ids.push(self.txi(&txid));
 		}
-		self.mempool.retain(|m| !txs.iter().any(|t| t.compute_txid() == m.txid));
+		let mut k = 0;
+		while k < self.mempool.len() {
+			if self.conf.contains_key(&self.mempool[k].txid) { let m = self.mempool.remove(k); self.mined.push(m); } else { k += 1; }
+		}
 		if let Some(a) = self.agent.as_ref() {
 			let owner = self.agent_owner;
 			let txdata: Vec<_> = block.txdata.iter().enumerate().collect();
@@ -1114,13 +1120,46 @@ impl Net {
 	}
 
 	/// Who ends up with what: every output of the confirmed commitment and of its descendants.
+	/// Follow a channel output through the confirmed transactions that spent it.
+	fn end_of(&self, op: OutPoint) -> String {
+		let mut cur = op;
+		let mut last = String::from("nobody");
+		for _ in 0..8 {
+			let txid = match self.spent.get(&cur) { Some(t) => *t, None => return format!("unspent, last moved by {}", last) };
+			let m = match self.mined.iter().find(|m| m.txid == txid) { Some(m) => m, None => return String::from("spent by an unknown transaction") };
+			let who = match m.by { 0 => "node 0", 1 => "node 1", AGENT => "cheater", _ => "harness" };
+			if m.sweep { return format!("wallet of {}", who); }
+			let idx = m.tx.input.iter().position(|i| i.previous_output == cur).unwrap_or(0);
+			let next = if m.tx.output.len() == 1 { 0 } else if idx < m.tx.output.len() { idx } else { return format!("fees ({})", who) };
+			last = who.to_string();
+			cur = OutPoint { txid, vout: next as u32 };
+		}
+		String::from("?")
+	}
+
 	fn final_report(&mut self) {
 		self.flush_idle();
 		let h = self.height();
 		let empty: Vec<bool> = (0..2).map(|i| !self.live.contains(&i) || self.nodes[i].chain_monitor.chain_monitor.get_claimable_balances(&[]).is_empty()).collect();
 		let unswept = self.pending.iter().filter(|p| !p.done).count();
 		let left: Vec<usize> = self.mempool.iter().filter(|m| m.by < 2 && m.valid && self.could_ever_confirm(m)).map(|m| m.id).collect();
-		self.ev(json!({"ev":"final","h":h,"balances_empty":empty,"unswept":unswept,"mempool_left":left}));
+		// who ended up with what (informational; TLC derives its own verdict from the logged transactions)
+		let mut ends = Vec::new();
+		if let Some((o, k)) = self.confirmed_commit {
+			let d = self.describe_commit(o, k);
+			let txid = self.commits[o][k].txid;
+			for r in d["outs"].as_array().unwrap() {
+				let v = r["v"].as_u64().unwrap() as u32;
+				ends.push(json!({"v": v, "k": r["k"], "amt": r["amt"], "end": self.end_of(OutPoint { txid, vout: v })}));
+			}
+		}
+		let mut fees = [0i64; 4];
+		let mut swept = [0u64; 2];
+		for m in self.mined.iter() {
+			fees[m.by.min(3)] += m.fee;
+			if m.sweep { swept[m.by.min(1)] += m.tx.output.iter().map(|o| o.value.to_sat()).sum::<u64>(); }
+		}
+		self.ev(json!({"ev":"final","h":h,"balances_empty":empty,"unswept":unswept,"mempool_left":left,"ends":ends,"fees":fees,"swept":swept}));
 	}
 }
 
@@ -1186,7 +1225,7 @@ fn build_net(run: u64, cfg: &Value) -> Net {
 		outs: HashMap::new(), conf: HashMap::new(), spent: HashMap::new(), ids: HashMap::new(), mempool: Vec::new(),
 		funding: OutPoint { txid: ftxid, vout }, live: vec![0, 1], frozen: vec![], agent: None, agent_owner: 0, agent_bc: None,
 		commits: [Vec::new(), Vec::new()], commit_logged: false, confirmed_commit: None, pending: Vec::new(), last_state: String::new(),
-		idle_from: None, executed: 0, skipped: 0, swept: [0, 0], refused: [false, false], jump_from: None,
+		idle_from: None, executed: 0, skipped: 0, swept: [0, 0], refused: [false, false], jump_from: None, mined: Vec::new(),
 	};
 	net.drain_msgs();
 	net.deliver(usize::MAX);
